@@ -130,8 +130,28 @@ class Monitor:
         tb = ("##Firmware: 1100 ID-engine 1.02.03\n##Creator: ref\n##Bf3Update: 1\n#>CHECK_FWVER VERSIONDESC=*\n#>SELECT FILTER=01 01 00 9B\n#>SELECT_IF PROTOCOL=BRP\n:0000FE00\n"
               + R2.data_line(1, 0x35, 0, b"abc")[0] + "\n:0002FF00\n#>CHECK_FWVER VERSIONDESC=*\n#>SELECT FILTER=01 02 80 0B 00 0C\n#>SELECT_IF PROTOCOL=BRP-SER\n:0003FE00\n" + R2.data_line(4, 0x84, 0, b"main")[0] + "\n:0005FF00\n")
         out = []
-        for fn in (lambda: repr(BF.Bf3File.read_file(io.StringIO(t3), True, key)), lambda: repr(B.Bec2File.read_file(io.StringIO(t2), [B.SoftwareCustKeyEncryptor(ck)])),
-                   lambda: repr(BF.Bf3File.bf2_import(io.StringIO(tb))), lambda: repr(ns.configid.ConfigId.create_from_str("12345-0001-0002-03 n")), lambda: BF.pfid2_filter_to_str(b"\x01\x02\x80\x0b\x40\x0c")):
+
+        def spoil(obj):
+            """the caller goes on using (and changing) what a parser returned; a later parse of the same input must not see it"""
+            r = repr(obj)
+            try:
+                f = getattr(obj, "bf3file", obj)
+                if hasattr(f, "comments"):
+                    f.comments["spoiled"] = "yes"
+                    for c in f.components:
+                        c.description[0x7E] = b"spoiled"
+                        c.blob = b"spoiled"
+                    f.components.append(f.components[0] if f.components else None)
+                if hasattr(obj, "auth_blocks"):
+                    obj.auth_blocks.clear()
+                if hasattr(obj, "version") and hasattr(obj, "name"):
+                    obj.version, obj.name = 99, "spoiled"
+            except Exception:
+                pass
+            return r
+
+        for fn in (lambda: spoil(BF.Bf3File.read_file(io.StringIO(t3), True, key)), lambda: spoil(B.Bec2File.read_file(io.StringIO(t2), [B.SoftwareCustKeyEncryptor(ck)])),
+                   lambda: spoil(BF.Bf3File.bf2_import(io.StringIO(tb))), lambda: spoil(ns.configid.ConfigId.create_from_str("12345-0001-0002-03 n")), lambda: BF.pfid2_filter_to_str(b"\x01\x02\x80\x0b\x40\x0c")):
             try:
                 out.append(fn())
             except Exception as e:
